@@ -1,5 +1,5 @@
 /-
-Core C — model of `sessions/ackqueue.go` (code-shaped: ring + index map + ping slot).
+Core C — model of `sessions/ackqueue.go` (code-shaped: ring + index map + ping FIFO).
 
 Every definition follows the Go function of the same name.  Message types are
 the numeric MQTT packet types (`message.Type`); the sets the code switches on
@@ -36,7 +36,7 @@ structure Q where
   count : Nat
   head  : Nat
   tail  : Nat
-  ping  : AckMsg
+  pings : List AckMsg      -- `aq.pings`: PINGREQs waiting for their PINGRESP, oldest first
   ring  : List AckMsg
   emap  : List (Nat × Nat)
 deriving DecidableEq, Repr
@@ -66,7 +66,7 @@ def newAckqueue (n : Nat) : Q :=
   let m := if powerOfTwo64 m then m else roundUpPowerOfTwo64 m
   let m := m.toNat
   { size := m, mask := m - 1, count := 0, head := 0, tail := 0,
-    ping := AckMsg.zero, ring := List.replicate m AckMsg.zero, emap := [] }
+    pings := [], ring := List.replicate m AckMsg.zero, emap := [] }
 
 def Q.index (q : Q) (n : Nat) : Nat := n &&& q.mask
 def Q.increment (q : Q) (n : Nat) : Nat := q.index (n + 1)
@@ -121,8 +121,16 @@ def Q.wait (q : Q) (m : WaitMsg) (tag : Nat) : Q × Bool :=
       if qos == 0 then (q, false) else (q.insert tPUBLISH pktid enc tag, true)
   | .subscribe pktid enc => (q.insert tSUBSCRIBE pktid enc tag, true)
   | .unsubscribe pktid enc => (q.insert tUNSUBSCRIBE pktid enc tag, true)
-  | .pingreq enc => ({ q with ping := ⟨tPINGREQ, 0, 0, enc, [], tag⟩ }, true)
+  | .pingreq enc => ({ q with pings := q.pings ++ [⟨tPINGREQ, 0, 0, enc, [], tag⟩] }, true)
   | .other => (q, false)
+
+/-- the `for i := range aq.pings` loop of `Ack`: the oldest entry that has no
+PINGRESP yet takes this one; the loop stops there. -/
+def markPing (bytes : List UInt8) : List AckMsg → List AckMsg
+  | [] => []
+  | a :: rest =>
+    if a.state != tPINGRESP then { a with state := tPINGRESP, ackbuf := bytes } :: rest
+    else a :: markPing bytes rest
 
 /-- `Ack(msg)`: `mtype`, `pktid` and the encoded bytes of the ack message. -/
 def Q.ack (q : Q) (mtype pktid : Nat) (bytes : List UInt8) : Q × Bool :=
@@ -133,9 +141,7 @@ def Q.ack (q : Q) (mtype pktid : Nat) (bytes : List UInt8) : Q × Bool :=
       ({ q with ring := q.ring.set i { e with state := mtype, ackbuf := bytes } }, true)
     | none => (q, true)
   else if mtype == ackPingType then
-    if q.ping.mtype == tPINGREQ then
-      ({ q with ping := { q.ping with state := tPINGRESP, ackbuf := bytes } }, true)
-    else (q, true)
+    ({ q with pings := markPing bytes q.pings }, true)
   else (q, false)
 
 /-- The `FORNOTEMPTY` loop of `Acked`; `fuel` is an upper bound on the number
@@ -149,11 +155,11 @@ def Q.drain : Nat → Q → List AckMsg → Q × List AckMsg
       Q.drain fuel q.removeHead (acc ++ [h])
     else (q, acc)
 
-/-- `Acked()`. -/
+/-- `Acked()`: first the leading pings that have their PINGRESP
+(`for len(aq.pings) > 0 && aq.pings[0].State == PINGRESP`), then the ring. -/
 def Q.acked (q : Q) : Q × List AckMsg :=
-  let (q, acc) :=
-    if q.ping.state == tPINGRESP then ({ q with ping := AckMsg.zero }, [q.ping]) else (q, [])
-  Q.drain q.count q acc
+  let done := q.pings.takeWhile (fun a => a.state == tPINGRESP)
+  Q.drain q.count { q with pings := q.pings.dropWhile (fun a => a.state == tPINGRESP) } done
 
 inductive Out where
   | ok (b : Bool)
